@@ -15,6 +15,7 @@ import (
 
 	"github.com/tonkeeper/tongo/boc"
 	"github.com/tonkeeper/tongo/code"
+	"github.com/tonkeeper/tongo/liteclient"
 	"github.com/tonkeeper/tongo/tl"
 	"github.com/tonkeeper/tongo/tlb"
 	"verifharness/h"
@@ -22,11 +23,12 @@ import (
 
 func init() {
 	ex := map[string]h.ExecFn{
-		"tld.dec":           exTLDec,
-		"tld.consts":        exTLConsts,
-		"tld.reqdec":        exTLReqDec,
-		"tld.len":           exTLLen,
-		"tld.pqa":           exTLPqa,
+		"tld.dec":          exTLDec,
+		"tld.consts":       exTLConsts,
+		"tld.reqdec":       exTLReqDec,
+		"tld.len":          exTLLen,
+		"tld.pqa":          exTLPqa,
+		"go.tld.pqa":       goTLPqa,
 		"go.tl.safe":       goTLSafe,
 		"go.tl.marshalnil": goTLMarshalNil,
 		"go.tl.reqdec":     goTLReqDec,
@@ -53,12 +55,16 @@ func init() {
 
 func genC08(g *h.G) {
 	gc := &genCtx{g: g, sc: loadTLSchema(), noSeed: map[string]bool{}, perType: map[string]int{}, tlbStats: map[string]*tlbStat{}}
+	gc.genFlags() // queued, emitted between the other lines
 	gc.genTL()
 	gc.genHelpers()
 	gc.genTLB()
 	gc.genTLBModel()
 	gc.genProofs()
 	gc.genABIStacks()
+	for len(gc.pendingFlags) > 0 {
+		gc.emitPendingFlag()
+	}
 	for k := range gc.noSeed {
 		g.Count("no_valid_seed:" + k)
 	}
@@ -125,6 +131,11 @@ func (gc *genCtx) genHelpers() {
 	for _, p := range [][2]int{{0, 0}, {1, 1}, {2, 2}, {0, 1}, {1, 2}, {2, 1}, {3, 0}} {
 		g.Emit("go.net.gettx", strconv.Itoa(p[0]), strconv.Itoa(p[1]))
 	}
+	for _, real := range []int{0, 1, 2, 3, 4, 5, 8, 100, 249, 250, 251, 252, 253, 254, 255, 256, 257, 258, 260, 300, 1000, 65535, 65536, 70000} {
+		for delta := -4; delta <= 8; delta++ {
+			g.Emit("go.tld.pqa", strconv.Itoa(real), strconv.Itoa(delta))
+		}
+	}
 	g.Emit("go.tl.nilptr")
 	g.Emit("go.h.tuplebroken")
 	g.Emit("go.h.zeroslice")
@@ -174,6 +185,60 @@ func goTLNilPtr(a []string) (ans string) {
 	}
 	if _, err := tl.Marshal((*tl.Int256)(nil)); err == nil {
 		return "FAIL encoded a nil pointer"
+	}
+	return "ok"
+}
+
+// go.tld.pqa <real> <delta>: processQueryAnswer and decodeLength on an ADNL answer carrying `real` bytes of data whose
+// length prefix declares real+delta bytes, in a buffer with len == cap (as read from the socket): a value or an
+// error, never a panic; when delivered, the answer has exactly the declared length and lies inside the payload.
+func goTLPqa(a []string) (ans string) {
+	real, _ := strconv.Atoi(a[0])
+	delta, _ := strconv.Atoi(a[1])
+	declared := real + delta
+	if declared < 0 {
+		declared = 0
+	}
+	hdr := make([]byte, 36)
+	for i := range hdr {
+		hdr[i] = byte(i*7 + 1)
+	}
+	prefix := tl.EncodeLength(declared)
+	payload := make([]byte, 36+len(prefix)+real) // allocated exactly: len == cap
+	copy(payload, hdr)
+	copy(payload[36:], prefix)
+	for i := 0; i < real; i++ {
+		payload[36+len(prefix)+i] = byte(i)
+	}
+	if len(payload) != cap(payload) {
+		payload = append([]byte(nil), payload...)[:len(payload):len(payload)]
+	}
+	defer func() {
+		if r := recover(); r != nil {
+			ans = fmt.Sprintf("FAIL panic %v (payload %x)", r, payload)
+		}
+	}()
+	tail := payload[36:len(payload):len(payload)]
+	if n, p, err := liteclient.VerifDecodeLength(append([]byte(nil), tail...)); err == nil && (n != declared || p != len(prefix)) {
+		return fmt.Sprintf("FAIL decodeLength got (%d,%d) want (%d,%d)", n, p, declared, len(prefix))
+	}
+	for _, known := range []bool{true, false} {
+		d, ok, err := liteclient.VerifProcessQueryAnswer(payload, known)
+		if !known {
+			if err == nil {
+				return "FAIL unknown query id accepted"
+			}
+			continue
+		}
+		if err != nil {
+			if declared <= real {
+				return fmt.Sprintf("FAIL rejected an answer that fits: declared %d, data %d", declared, real)
+			}
+			continue
+		}
+		if !ok || len(d) != declared || declared > real {
+			return fmt.Sprintf("FAIL delivered %d bytes for declared %d, data %d", len(d), declared, real)
+		}
 	}
 	return "ok"
 }
